@@ -503,7 +503,11 @@ class RunLengthEncoding(Encoding):
 
     @caching.cache_decorator
     def sum(self):
-        return (self._data[::2] * self._data[1::2]).sum()
+        data = self._data
+        if data.dtype.kind in "iub" and data.dtype.itemsize < 8:
+            # value * count has to be formed in the type numpy sums in
+            data = data.astype(np.uint64 if data.dtype.kind == "u" else np.int64)
+        return (data[::2] * data[1::2]).sum()
 
     @caching.cache_decorator
     def size(self):
